@@ -209,6 +209,7 @@ func runC02(c *Check) {
 	c.ruleEveryAddedBlockAnnounced("R13")
 	c.ruleTipReadNotStale("R14")
 	c.ruleGenesisAtHeightZero("R15", a)
+	c.ruleCursorIsOwnHash("R16")
 }
 
 // ruleRepoCoupled: any function that writes one of (height, lastHeaders, heights) writes the others on
@@ -384,6 +385,8 @@ func runC09(c *Check) {
 	c.ruleRevertStartsAtNewestFile("R15")
 	c.ruleLatestHeadersStart("R16")
 	c.ruleGenesisAtHeightZero("R17", a)
+	c.ruleRepoWritesUnderLock("R18", a)
+	c.ruleTruncatedFileRewrittenInPlace("R19", a)
 	c.ruleSaveNotSkipped("R12", []string{"storage.(*BlockRepository).save", "storage.(*BlockRepository).Save"}, "storage", "BlockRepository",
 		map[*types.Var]bool{a.lastHeaders: true, a.height: true}, map[string]bool{"storage.(*BlockRepository).Load": true, "storage.NewBlockRepository": true})
 
@@ -611,6 +614,10 @@ func runC10(c *Check) {
 	c.ruleRevertStartsAtNewestFile("R8")
 	c.ruleHeightGettersAgree("R9")
 	c.ruleRevertRemovesRevertedHeights("R10")
+	if a := c.repoAnchors("R11"); a != nil {
+		c.ruleRepoWritesUnderLock("R11", a)
+		c.ruleTruncatedFileRewrittenInPlace("R12", a)
+	}
 
 	if fn := c.Fn("R2", "storage.(*BlockRepository).Add"); fn != nil {
 		n := 0
